@@ -33,6 +33,7 @@ func cmdVC(args []string) {
 	only := fs.String("func", "", "only functions whose name contains this")
 	timeout := fs.Int("timeout", 10, "solver timeout (s)")
 	out := fs.String("out", "/tmp/govc-vc", "directory for SMT files")
+	showLoops := fs.Bool("loops", false, "print the loop ordinals of the selected functions and exit")
 	fs.Parse(args)
 	var pats, ips []string
 	for _, a := range fs.Args() {
@@ -71,6 +72,15 @@ func cmdVC(args []string) {
 			continue
 		}
 		if fc.Trusted || !want[fc.Pkg] {
+			continue
+		}
+		if *showLoops {
+			if fn := p.LookupFunc(fc.Pkg, fc.Name); fn != nil {
+				fr := NewGen(p, fn, fc).newFrame(fn, "", true)
+				for _, lp := range fr.loops {
+					fmt.Printf("%s loop %d: header b%d at %s (%d blocks)\n", fc.Name, lp.Ordinal, lp.Header.Index, fr.pos(lastPos(lp.Header)), len(lp.Blocks))
+				}
+			}
 			continue
 		}
 		g, err := VerifyFunc(p, fc)
